@@ -76,11 +76,12 @@ class LexicaseSelection(GeneticStep):
         candidates = list(population)
         evaluator.evaluate(problem, candidates)
         n_cases = problem.number_of_objectives()
-        cases = random.shuffle(list(range(n_cases)))
 
         assert isinstance(problem.minimize, list)
-        
+
         for _ in range(target_size):
+            # every selection event filters through its own freshly shuffled case order
+            cases = random.shuffle(list(range(n_cases)))
             candidates_to_check = candidates.copy()
 
             while len(candidates_to_check) > 1 and cases:
